@@ -10,7 +10,12 @@ V = ["n"] | ["b", bool] | ["i", int] | ["f", float.hex()] | ["s", text];  F = nu
  col.values = col.values * 2, then materialize()).
 
 Observed: {"values": [V], "values_dtype": str, "aux": [int] (lengths / indices / encoding), "mat": [V], "mat_dtype": str}
-       or {"raise": exception class name, "stage": "init"|"fn"|"mat"}; .values / aux are read BEFORE the function is applied."""
+       or {"raise": exception class name, "stage": "init"|"fn"|"mat"}; .values / aux are read BEFORE the function is applied.
+
+Multi-step cases carry "script": a list of steps run on ONE column object
+  "mat" | "scribble" (overwrite the array the latest materialize() returned) | ["fn", F, "inplace"|"rebind"] | ["length", n]
+Observed: {"steps": [{"mat": [V], "mat_dtype": str} | {"values": [V], "values_dtype": str} | {"scribbled": bool} | {}]}
+          plus "raise"/"stage"/"at" if a step raised.  These cases are judged by the oracle only (not sent to Coq)."""
 import itertools
 import math
 
@@ -35,6 +40,8 @@ LEVEL_NOTE = ("Trusted: Coq kernel + vm_compute; the hand-written models of the 
               "integers outside int64 in the data, NUL characters in text, lower-case non-ASCII letters under 'upper'. "
               "Partial: totality of the sparse constructor and exactness of its default test carry guards (known findings F-C09-3, F-C09-4, F-C09-5, each with a _refuted witness); "
               "'equal to the default' is Python/NumPy ==, so -0.0 stored under default 0.0 comes back as 0.0 and 1.0 under default 1 as the data's own kind. "
+              "Object identity (caching, aliasing of returned arrays, in-place updates of the stored values) does not exist in the pure model: it is covered by "
+              "the multi-step stream, which is checked by the property oracle on the implementation only, not by Coq. "
               "No axioms (Print Assumptions: closed).")
 DESIGN_REF = "DESIGN.md section 8, C09"
 COQ_IMPORTS = "From Orso Require Import Model.C09."
@@ -47,6 +54,8 @@ RULE = ("real RLEColumn / DictionaryColumn / SparseColumn / ConstantColumn / Fun
         "null-default, other-kind-default and other-width-default alphabets; random: sequences of ints, floats (NaN, infinities, signed zero, "
         "subnormal), text of mixed width (non-ASCII, astral), booleans, each with or without nulls, int/float mixes; sparse defaults null / 0 / '' / "
         "pool value / other width / other numeric kind / out-of-range; element-wise functions *2, +1, upper, +'xy', not on the stored values; "
+        "multi-step cases run a script on ONE column object (materialize / function on the stored values in place or by rebinding / overwrite "
+        "a returned array / change length / materialize again) and are judged by the oracle only; "
         "a case is non-trivial when it expanded without raising and holds >= 2 elements (constant/function: length >= 1); distinct by canonical JSON")
 TRUSTED = [
     "C09 model (coq/Model/C09.v): codecs over an abstract value type; Python values as None/bool/Z/exact binary64 (m*2^e)/code points; "
@@ -188,11 +197,106 @@ def _binding(name):
     raise KeyError(name)
 
 
+def _apply_fn_inplace(col, fn):
+    """the same element-wise functions, written INTO the stored array (col.values is not rebound)"""
+    import numpy
+    if fn == "mul2":
+        col.values *= 2
+    elif fn == "add1":
+        col.values += 1
+    elif fn == "upper":
+        col.values[...] = numpy.char.upper(col.values)
+    elif fn == "not":
+        numpy.logical_not(col.values, out=col.values)
+    else:
+        raise KeyError(fn)
+
+
+def _scribble(arr):
+    """a caller overwrites an array materialize() handed out; True if something was written"""
+    import numpy
+    if arr is None or arr.size == 0:
+        return False
+    k = arr.dtype.kind
+    if k == "b":
+        numpy.logical_not(arr, out=arr)
+    elif k in "iuf":
+        arr[...] = 12345
+    elif k == "U":
+        arr[...] = "#"
+    else:
+        arr[...] = 12345
+    return True
+
+
+def _build(case):
+    from orso.schema import ConstantColumn, DictionaryColumn, FunctionColumn, RLEColumn, SparseColumn
+    from orso.types import OrsoTypes
+
+    kind = case["col"]
+    if kind == "func":
+        return FunctionColumn(name="c", type=OrsoTypes.VARCHAR, binding=_binding(case["binding"]),
+                              configuration=tuple(dec(v) for v in case["cfg"]), length=case["length"])
+    if kind == "const":
+        return ConstantColumn(name="c", type=OrsoTypes.VARCHAR, value=dec(case["value"]), length=case["length"])
+    values = [dec(v) for v in case["values"]]
+    if kind == "rle":
+        return RLEColumn(name="c", type=OrsoTypes.VARCHAR, values=values)
+    if kind == "dict":
+        return DictionaryColumn(name="c", type=OrsoTypes.VARCHAR, values=values)
+    if kind == "sparse":
+        return SparseColumn(name="c", type=OrsoTypes.VARCHAR, values=values, default_value=dec(case["default"]))
+    raise KeyError(kind)
+
+
+def _observe_script(case):
+    import warnings
+
+    steps = []
+    stage, at = "init", -1
+    with warnings.catch_warnings():
+        warnings.simplefilter("ignore")
+        try:
+            col = _build(case)
+            last = None
+            for at, st in enumerate(case["script"]):
+                if st == "mat":
+                    stage = "mat"
+                    last = col.materialize()
+                    steps.append({"mat": [enc(x) for x in last.tolist()], "mat_dtype": str(last.dtype)})
+                elif st == "scribble":
+                    stage = "scribble"
+                    try:
+                        steps.append({"scribbled": _scribble(last)})
+                    except (ValueError, TypeError):  # read-only or unassignable: nothing was written
+                        steps.append({"scribbled": False})
+                elif st[0] == "fn":
+                    stage = "fn"
+                    if st[2] == "inplace":
+                        _apply_fn_inplace(col, st[1])
+                    else:
+                        _apply_fn(col, st[1])
+                    steps.append({"values": [enc(x) for x in col.values.tolist()], "values_dtype": str(col.values.dtype)})
+                elif st[0] == "length":
+                    stage = "length"
+                    col.length = st[1]
+                    steps.append({})
+                else:
+                    raise KeyError(st)
+            return {"steps": steps}
+        except KeyError:
+            raise
+        except Exception as e:
+            return {"steps": steps, "raise": type(e).__name__, "stage": stage, "at": at}
+
+
 def observe(case):
     import warnings
     from orso.schema import ConstantColumn, DictionaryColumn, FunctionColumn, RLEColumn, SparseColumn
     from orso.types import OrsoTypes
 
+    if "script" in case:
+        return _observe_script(case)
     kind = case["col"]
     stage = "init"
     out = {}
@@ -296,7 +400,67 @@ def _seq_same(got, want, what):
     return None
 
 
+def _oracle_script(case, obs):
+    """Every expansion of the one column object equals the functions applied so far to every element of the
+    original; overwriting an array handed out earlier changes nothing."""
+    kind = case["col"]
+    script = case["script"]
+    steps = obs["steps"]
+    failed_at = obs.get("at") if "raise" in obs else None
+    if kind == "func":
+        cur = [_binding(case["binding"])(*[dec(v) for v in case["cfg"]])]
+        n = case["length"]
+    elif kind == "const":
+        cur = [dec(case["value"])]
+        n = case["length"]
+    else:
+        cur = [dec(v) for v in case["values"]]
+        n = None
+        if kind == "dict" and any(v is None for v in cur):
+            return None  # the dictionary encoding does not support nulls
+    if failed_at == -1:
+        if n is not None and n < 0:
+            return None
+        return f"{kind} column must build, raised {obs['raise']} in init"
+    done = []
+    scribbled = False
+    for i, st in enumerate(script):
+        if failed_at is not None and i == failed_at:
+            if obs["stage"] == "mat" and not (n is not None and n < 0):
+                return f"step {i} of {script}: materialize() after {done} raised {obs['raise']}"
+            return None  # the harness's own NumPy operation does not apply here: nothing further to judge
+        if i >= len(steps):
+            return None
+        if st == "mat":
+            if n is not None and n < 0:
+                return None
+            want = cur * n if n is not None else cur
+            why = _seq_same([dec(x) for x in steps[i]["mat"]], want,
+                            f"step {i} of {script}: expansion after {done or 'nothing'}" +
+                            (" and after a caller overwrote an earlier expansion" if scribbled else ""))
+            if why:
+                return why
+        elif st == "scribble":
+            scribbled = scribbled or steps[i].get("scribbled", False)
+        elif st[0] == "fn":
+            if kind == "sparse":
+                d = dec(case["default"])
+                try:
+                    fixed = d is None or _same(_pyf(st[1], d), d, False)
+                except Exception:
+                    fixed = False
+                if not fixed:
+                    return None  # from here on the property does not speak (f default != default)
+            cur = [_pyf(st[1], v) for v in cur]
+            done.append(st[1] + ("(in place)" if st[2] == "inplace" else ""))
+        elif st[0] == "length":
+            n = st[1]
+    return None
+
+
 def oracle(case, obs):
+    if "script" in case:
+        return _oracle_script(case, obs)
     kind = case["col"]
     fn = case.get("fn")
     if obs.get("stage") == "fn":
@@ -468,6 +632,8 @@ KNOWN_WITNESSES = {
 # ----------------------------------------------------------------------------------------------
 def to_coq(case, obs):
     kind = case["col"]
+    if "script" in case:
+        return None  # multi-step cases: judged by the oracle only (the pure model has no object identity to get stale)
     if obs.get("stage") == "fn":
         return None
     if kind == "func":
@@ -501,6 +667,11 @@ def _vkind(v):
 def classify(case, obs):
     kind = case["col"]
     yield "col:" + kind
+    if "script" in case:
+        yield "multi-step"
+        yield "multi-step:" + kind
+        for st in case["script"]:
+            yield "step:" + (st if isinstance(st, str) else st[0] + (":" + st[2] if st[0] == "fn" else ""))
     if "raise" in obs:
         yield "raised:" + obs["raise"] + "@" + obs["stage"]
     if kind in ("const", "func"):
@@ -553,6 +724,15 @@ def corpus():
     yield _sparse([1.5], 2 ** 1024)
     yield _sparse([1e30, 2.5], 10 ** 30)
     yield _sparse([None, -(2 ** 63)], -(2.0 ** 63))
+    # one column object, several expansions (a cached / aliased expansion shows here)
+    yield {"col": "dict", "values": [enc(v) for v in [3, 1, 2, 2, 3, 1, 1]], "fn": None,
+           "script": ["mat", ["fn", "mul2", "inplace"], "mat", ["fn", "add1", "inplace"], "mat"]}
+    yield {"col": "dict", "values": [enc(v) for v in ["aa", "b", "aa", "ccc"]], "fn": None, "script": ["mat", "scribble", "mat"]}
+    yield {"col": "rle", "values": [enc(v) for v in [1, 1, 2, 2, 3, 3]], "fn": None,
+           "script": ["mat", ["fn", "mul2", "inplace"], "mat", "scribble", "mat"]}
+    yield dict(_sparse([1, None, 2, None, None, 3], None), script=["mat", ["fn", "mul2", "rebind"], "mat", "scribble", "mat"])
+    yield {"col": "const", "value": enc(3), "length": 5, "fn": None, "script": ["mat", ["fn", "mul2", "inplace"], "mat", "scribble", "mat"]}
+    yield {"col": "func", "binding": "first", "cfg": [enc(10)], "length": 1, "script": ["mat", "scribble", "mat", ["length", 10], "mat"]}
     # the shipped tests
     yield _sparse(["31", None, "31", None, None, "31", "30", "31", None], None)
     yield _sparse([1, None, 2, None, None, 3, 4, 5, None], None, "mul2")
@@ -583,6 +763,20 @@ _ALPHABETS_RLE = [(1, 2, 0), ("x", "yyy", ""), (1.5, 2.5, 0.5), (1, 2, None), (T
 _ALPHABETS_DICT = [(1, 2, 0), ("x", "yyy", ""), (1.5, 2.5, 0.5)]
 
 
+# (alphabet a, b, default; f fixing the default; g; may g be applied in place)
+_SCRIPT_ALPHABETS = [((1, 2, 0), "mul2", "add1", True), (("x", "yyy", ""), "upper", "catxy", False), ((1.5, 2.5, 0.0), "mul2", "add1", True)]
+
+
+def _scripts(f, g, g_inplace):
+    gi = "inplace" if g_inplace else "rebind"
+    return [
+        ["mat", ["fn", f, "inplace"], "mat", "scribble", "mat"],
+        ["mat", ["fn", f, "rebind"], "mat", "scribble", "mat", ["fn", g, "rebind"], "mat"],
+        ["mat", "scribble", "mat", ["fn", f, "inplace"], "mat", ["fn", g, gi], "mat"],
+        [["fn", f, "inplace"], "mat", "mat"],
+    ]
+
+
 def exhaustive(tier):
     top = 4 if tier == "quick" else 5
 
@@ -595,13 +789,30 @@ def exhaustive(tier):
                     yield {"col": "rle", "values": [enc(a[i]) for i in seq], "fn": None}
                 for a in _ALPHABETS_DICT:
                     yield {"col": "dict", "values": [enc(a[i]) for i in seq], "fn": None}
+        for k in range(0, top):
+            for seq in itertools.product(range(3), repeat=k):
+                for a, f, g, g_inplace in _SCRIPT_ALPHABETS:
+                    for script in _scripts(f, g, g_inplace):
+                        vals = [enc(a[i]) for i in seq]
+                        yield {"col": "rle", "values": vals, "fn": None, "script": script}
+                        yield {"col": "dict", "values": vals, "fn": None, "script": script}
+                        yield dict(_sparse([a[i] for i in seq], a[2]), script=script)
+        for n in range(0, top):
+            for v, f, g, g_inplace in ((3, "mul2", "add1", True), ("abc", "upper", "catxy", False), (1.5, "mul2", "add1", True), (True, "not", "not", True)):
+                for script in _scripts(f, g, g_inplace):
+                    yield {"col": "const", "value": enc(v), "length": n, "fn": None, "script": script + [["length", n + 1], "mat"]}
+            for v in (3, "abc", None, 1.5, True):
+                yield {"col": "func", "binding": "first", "cfg": [enc(v)], "length": n,
+                       "script": ["mat", "scribble", "mat", ["length", n + 2], "mat", "scribble", "mat"]}
         for n in range(0, top + 1):
             for v in (3, "abc", None, 1.5, True):
                 yield {"col": "const", "value": enc(v), "length": n, "fn": None}
                 yield {"col": "func", "binding": "first", "cfg": [enc(v)], "length": n}
 
     return it(), (f"all sequences of length <= {top} over {{a, b, default}} for {len(_ALPHABETS_SPARSE)} sparse, "
-                  f"{len(_ALPHABETS_RLE)} run-length and {len(_ALPHABETS_DICT)} dictionary alphabets; constant/function lengths 0..{top}")
+                  f"{len(_ALPHABETS_RLE)} run-length and {len(_ALPHABETS_DICT)} dictionary alphabets; constant/function lengths 0..{top}; "
+                  f"multi-step: all sequences of length < {top} over 3 alphabets x 4 scripts (expand / function in place and by rebinding / "
+                  f"overwrite an earlier expansion / expand) on one run-length, dictionary and sparse column object, constant and function columns with a length change")
 
 
 _INTS = [0, 1, -1, 2, 3, 7, 100, -100, 2 ** 31, -(2 ** 31) - 1, 2 ** 53 + 1, -(2 ** 53) - 1, 2 ** 62, 2 ** 63 - 1, -(2 ** 63)]
@@ -716,18 +927,95 @@ def _random_case(rng, weights=(0.4, 0.6, 0.8, 0.9)):
     return {"col": "func", "binding": rng.choice(["first", "last", "null"]), "cfg": cfg, "length": n}
 
 
+def _fns_available(kind, seq, nulls_stored):
+    """[(fn, may be applied in place)]: functions NumPy can apply, twice over, to the stored values of this data"""
+    if nulls_stored:
+        return []
+    nn = [v for v in seq if v is not None]
+    has_null = len(nn) != len(seq)
+    if kind == "int":
+        return [("mul2", True), ("add1", True)] if all(abs(v) < 2 ** 59 for v in nn) else []
+    if kind == "float":
+        return [("mul2", True), ("add1", True)] if all(v != v or abs(v) == INF or abs(v) < 2e307 for v in nn) else []
+    if kind == "bool":
+        return [("not", True)] if seq and not has_null else []
+    if kind == "text":
+        return [("upper", True), ("catxy", False)] if seq and not has_null else []
+    return []
+
+
+def _random_script(rng, fns, extra=()):
+    steps = []
+    nfn = 0
+    for _ in range(rng.randint(3, 7)):
+        r = rng.random()
+        if r < 0.3 and fns and nfn < 2:
+            f, inplace_ok = rng.choice(fns)
+            steps.append(["fn", f, rng.choice(["inplace", "rebind"]) if inplace_ok else "rebind"])
+            nfn += 1
+        elif r < 0.5:
+            steps.append("scribble")
+        elif r < 0.58 and extra:
+            steps.append(list(rng.choice(extra)))
+        else:
+            steps.append("mat")
+    if steps.count("mat") < 2:
+        steps = ["mat"] + steps + ["mat"]
+    return steps
+
+
+def _random_script_case(rng):
+    r = rng.random()
+    if r < 0.75:
+        kind, seq, nulls = _data(rng, allow_mixed=False)
+        col = rng.choice(["rle", "dict", "sparse", "sparse"])
+        if col == "dict":
+            seq = [v for v in seq if v is not None]
+            nulls = False
+            if kind == "float":
+                seq = [0.0 if (v == 0) else v for v in seq]
+        if col == "sparse":
+            rr = rng.random()
+            d = None if rr < 0.4 else (rng.choice(seq) if rr < 0.6 and seq else rng.choice({"int": [0, 1, 0.0], "float": [0.0, 0, 1.5], "text": ["", "a", "zzzzzzzz"], "bool": [False, True, 0]}[kind]))
+            fns = _fns_available(kind, seq, nulls and d is not None)
+            if nulls and kind in ("bool", "text"):
+                fns = []
+            return dict(_sparse(seq, d), script=_random_script(rng, fns))
+        return {"col": col, "values": [enc(v) for v in seq], "fn": None, "script": _random_script(rng, _fns_available(kind, seq, nulls))}
+    pool = rng.choice([_INTS, _FLOATS, _TEXTS, _BOOLS, [None]])
+    v = rng.choice(pool)
+    n = rng.choice([0, 1, 2, 3, 5])
+    lengths = [["length", k] for k in (0, 1, 4)]
+    if r < 0.9:
+        kind = {int: "int", float: "float", str: "text", bool: "bool", type(None): "null"}[type(v)]
+        fns = [] if v is None else _fns_available(kind, [v], False)
+        return {"col": "const", "value": enc(v), "length": n, "fn": None, "script": _random_script(rng, fns, lengths)}
+    cfg = [enc(rng.choice(rng.choice([_INTS, _FLOATS, _TEXTS, _BOOLS, [None]]))) for _ in range(rng.randint(1, 3))]
+    return {"col": "func", "binding": rng.choice(["first", "last", "null"]), "cfg": cfg, "length": n, "script": _random_script(rng, [], lengths)}
+
+
 def generate(rng, tier):
     count = 1500 if tier == "quick" else 30000
     for _ in range(count):
         yield _random_case(rng)
+    for _ in range(count // 3):
+        yield _random_script_case(rng)
 
 
 def search(rng):
     while True:
-        yield _random_case(rng, weights=(0.7, 0.8, 0.9, 0.95))
+        if rng.random() < 0.4:
+            yield _random_script_case(rng)
+        else:
+            yield _random_case(rng, weights=(0.7, 0.8, 0.9, 0.95))
 
 
 def shrink(case):
+    if "script" in case:
+        sc = case["script"]
+        for i in range(len(sc)):
+            if sc[:i] + sc[i + 1:]:
+                yield dict(case, script=sc[:i] + sc[i + 1:])
     if "values" in case:
         vs = case["values"]
         for i in range(len(vs)):
